@@ -229,7 +229,7 @@ theorem chkAll_closed {strict : Bool} : ∀ {os : List Out} {g g' : G}, chkAll s
 theorem run_transports_accounted (cfg : Cfg) (rib : Bool) (evs : List Event) :
     ∀ i, 0 < i → i < (run (init cfg rib) evs).1.nextId →
       (∃ k, (run (init cfg rib) evs).1.conn = some k ∧ k.id = i) ∨ Out.close i ∈ (run (init cfg rib) evs).2 := by
-  obtain ⟨g, h, r⟩ := run_acc (strict := false) evs _ g0 (rel_init cfg rib) (inv_init cfg rib) (by simp)
+  obtain ⟨g, h, r⟩ := run_acc (strict := false) evs _ g0 (rel_init cfg rib) (inv_init cfg rib)
   intro i h0 hi
   rcases r.accounted i h0 hi with hcur | hcl
   · exact Or.inl hcur
@@ -237,10 +237,16 @@ theorem run_transports_accounted (cfg : Cfg) (rib : Bool) (evs : List Event) :
     · simp [g0] at h1
     · exact Or.inr h1
 
+/-- every run from the initial state passes the strict checker too. -/
+theorem run_accepted_strict (cfg : Cfg) (rib : Bool) (evs : List Event) :
+    ∃ g, chkAll true g0 (run (init cfg rib) evs).2 = some g := by
+  obtain ⟨g, h, _⟩ := run_acc (strict := true) evs _ g0 (rel_init cfg rib) (inv_init cfg rib)
+  exact ⟨g, h⟩
+
 /-- every run from the initial state passes the (non-strict) checker. -/
 theorem run_accepted (cfg : Cfg) (rib : Bool) (evs : List Event) :
     ∃ g, chkAll false g0 (run (init cfg rib) evs).2 = some g := by
-  obtain ⟨g, h, _⟩ := run_acc (strict := false) evs _ g0 (rel_init cfg rib) (inv_init cfg rib) (by simp)
+  obtain ⟨g, h, _⟩ := run_acc (strict := false) evs _ g0 (rel_init cfg rib) (inv_init cfg rib)
   exact ⟨g, h⟩
 
 end Exa.Session
